@@ -253,7 +253,27 @@ def extract():
     out["MINOR_NOVEL_DIV"] = num(one(vo, "minor: minor_add / K").right)
     hz = find_all(smi, lambda n: isinstance(n, ast.Compare) and "max_cn()" in src(n.left) and isinstance(n.ops[0], ast.Gt))
     out["MINOR_HOMOZYGOUS_TOL"] = num(one(hz, "minor: abs(copies - max_cn) > K").comparators[0])
-    em = func(mi, "estimate_minor", "default_filter_fn")
+    # does the evidence filter of estimate_minor read the loop variable `major_sol` (structure of the last candidate)?
+    emf = func(mi, "estimate_minor")
+    dff = func(mi, "estimate_minor", "default_filter_fn")
+    out["MINOR_FILTER_PER_STRUCTURE"] = not any(isinstance(n, ast.Name) and n.id == "major_sol" for n in ast.walk(dff))
+    # is the considered-variant collection put into a canonical order before the model is built?
+    srt = [n for n in ast.walk(smi) if isinstance(n, ast.Assign) and src(n.targets[0]) == "mutations" and src(n.value).startswith("sorted(")]
+    out["MINOR_MUTATIONS_SORTED"] = len(srt) >= 1
+    # SolvedAllele.mutations(): copy of the catalogue's core set, or alias?
+    sol = parse("aldy/solutions.py")
+    acc = func(sol, "SolvedAllele", "mutations")
+    first = [n for n in acc.body if isinstance(n, ast.Assign)][0]
+    v = first.value
+    if isinstance(v, ast.Call) and src(v.func) in ("set", "copy.copy", "copy", "frozenset"):
+        out["MUTATIONS_ACCESSOR_COPIES"] = True
+    elif isinstance(v, ast.Call) and isinstance(v.func, ast.Attribute) and v.func.attr == "copy":
+        out["MUTATIONS_ACCESSOR_COPIES"] = True
+    elif isinstance(v, ast.Attribute):
+        out["MUTATIONS_ACCESSOR_COPIES"] = False
+    else:
+        raise ExtractorMismatch("SolvedAllele.mutations: first assignment has an unknown shape " + src(v))
+    em = dff
     half = find_all(em, lambda n: isinstance(n, ast.BinOp) and isinstance(n.op, ast.Add) and "position_cn" in src(n.left))
     out["MINOR_FILTER_CN_ADD"] = num(one(half, "minor: position_cn + K").right)
 
@@ -344,6 +364,9 @@ def emit(c) -> str:
         A(f"def {k} : Nat := {c[k]}")
     A(f"def GUARD_REQUIRES_CN_REGION : Bool := {'true' if c['GUARD_REQUIRES_CN_REGION'] else 'false'}")
     A(f"def VCF_SKIPS_NONE : Bool := {'true' if c['VCF_SKIPS_NONE'] else 'false'}")
+    A(f"def MINOR_FILTER_PER_STRUCTURE : Bool := {'true' if c['MINOR_FILTER_PER_STRUCTURE'] else 'false'}")
+    A(f"def MINOR_MUTATIONS_SORTED : Bool := {'true' if c['MINOR_MUTATIONS_SORTED'] else 'false'}")
+    A(f"def MUTATIONS_ACCESSOR_COPIES : Bool := {'true' if c['MUTATIONS_ACCESSOR_COPIES'] else 'false'}")
     A(f"def CN_PCE_VAR : String := {lean_str(c['CN_PCE_VAR'])}")
     A("")
     A("/-- `escape_name`: replacements in application order. -/")
